@@ -299,8 +299,10 @@ fn parent(id: &str, tier: Tier) -> ExitCode {
     }
 
     // 2. preparation (generated crates, feature builds, fuzz target)
+    // (a violation found early does not end the run: the search below still runs, so that the evidence describes what was
+    // explored on this tree and not just where the first failure was)
     let mut prep_info = Value::Null;
-    if violations.is_empty() {
+    {
         if let Some(prep) = check.prepare {
             match prep(tier, seed, &dir) {
                 Ok(v) => prep_info = v,
@@ -317,7 +319,7 @@ fn parent(id: &str, tier: Tier) -> ExitCode {
     // 3. generated search in worker processes
     let mut merged = ShardResult::default();
     let mut fps: Vec<u64> = Vec::new();
-    if violations.is_empty() && inconclusive.is_none() {
+    if inconclusive.is_none() {
         let limit = Duration::from_secs(tier.pick(check.quick_limit_s, check.thorough_limit_s));
         let mut children: Vec<(usize, std::process::Child)> =
             (0..n).map(|s| (s, spawn_worker(id, tier, s, n, seed, &dir, None))).collect();
